@@ -249,21 +249,60 @@ class LoopMixin:
         for extra in lc.get("modifies", []):
             mod_keys.add(extra)
         h = st.copy()
+        h.ghost = dict(h.ghost)
+        h.ghost["__loop_entry__"] = st.copy()
         if lc.get("ghost_update"):
             body_names |= assigned_names(self.ghost_stmts(lc))
         for name in sorted(body_names | ({idx} if is_for else set())):
             if name in h.env:
                 h.env[name] = self.havoc_val(name, h.env[name], h)
             # names first assigned inside the loop stay unbound until assigned
+        # references held by locals that the loop never rebinds are loop-invariant terms
+        stable_refs = [v.t for nm, v in st.env.items()
+                       if nm not in body_names and nm != idx and (is_reflike(v.ty)) and z3.is_expr(v.t)]
+        by_key = {}
+        for key, ref in self.last_dry_refs:
+            by_key.setdefault(key, []).append(ref)
         for key in sorted(mod_keys):
             arr = h.heap.get(key, self.init_heap.get(key))
             if arr is None:
                 continue
-            h.heap[key] = fresh("lh_" + key, arr.sort())
+            refs = by_key.get(key)
+            is_stable = lambda r: z3.is_expr(r) and any(r.eq(sr) for sr in stable_refs)
+            is_fresh = lambda r: (isinstance(r, str) and r == "fresh") or (z3.is_expr(r) and self.allocated_after(r, st))
+            if refs and key not in lc.get("modifies", []) and all(r is not None and (is_stable(r) or is_fresh(r)) for r in refs) \
+                    and any(is_fresh(r) for r in refs):
+                # only objects allocated inside the loop (and loop-invariant references) are written:
+                # everything allocated before the loop keeps its value (frame)
+                new = fresh("lh_" + key, arr.sort())
+                rr = fresh("r", I)
+                keep = [rr < st.alloc] + [rr != sr for sr in stable_refs if any(z3.is_expr(r) and r.eq(sr) for r in refs)]
+                h.assume(z3.ForAll([rr], z3.Implies(z3.And(*keep), z3.Select(new, rr) == z3.Select(arr, rr)),
+                                   patterns=[z3.Select(new, rr)]))
+                if key == "List.len":
+                    h.assume(z3.ForAll([rr], z3.Select(new, rr) >= 0, patterns=[z3.Select(new, rr)]))
+                h.heap[key] = new
+            elif refs and key not in lc.get("modifies", []) and all(
+                    r is not None and is_stable(r) for r in refs):
+                # pointwise havoc: only the cells of loop-invariant references change
+                new = arr
+                seen = []
+                for r in refs:
+                    if any(r.eq(x) for x in seen):
+                        continue
+                    seen.append(r)
+                    cell = fresh("lc_" + key, arr.sort().range())
+                    if key == "List.len":
+                        h.assume(cell >= 0)           # type invariant: lengths are non-negative
+                    new = z3.Store(new, r, cell)
+                h.heap[key] = new
+            else:
+                h.heap[key] = fresh("lh_" + key, arr.sort())
+                if key == "List.len":
+                    rr = fresh("r", I)
+                    h.assume(z3.ForAll([rr], z3.Select(h.heap[key], rr) >= 0, patterns=[z3.Select(h.heap[key], rr)]))
         if allocates:
-            na = fresh("alloc", I)
-            h.assume(na >= st.alloc)
-            h.alloc = na
+            h.new_epoch_at_least(st.alloc)
         # refs held in havocked locals are allocated
         for name in body_names:
             if name in h.env:
@@ -288,6 +327,8 @@ class LoopMixin:
             sp = self.flush(it)[1:]
             it.pc.append(c)
         results.extend(sp)
+        it.ghost = dict(it.ghost)
+        it.ghost["__iter_start__"] = it.copy()
         dec0 = None
         if lc.get("decreases"):
             dec0 = self.spec_val(lc["decreases"], it.env, it)
@@ -303,6 +344,11 @@ class LoopMixin:
                 out.status = "run"
                 if is_for:
                     out.env[idx] = Val(INT, k_t + 1)
+                # proof hints: proved first, then available to the preservation obligations
+                for k, hint in enumerate(lc.get("hints", [])):
+                    hg = self.spec_truth(hint, out.env, out)
+                    self.oblige(out, f"{tag}/hint#{k}", hg, clause=hint, site=node.lineno)
+                    out.assume(hg)
                 for k, inv in enumerate(invs):
                     self.oblige(out, f"{tag}/preserve#{k}", self.spec_truth(inv, out.env, out), clause=inv,
                                 site=node.lineno)
@@ -326,6 +372,24 @@ class LoopMixin:
         results.append(ex)
         return results
 
+    def allocated_after(self, ref, st):
+        """ref is (syntactically) a reference allocated at or after the current allocation point of st."""
+        b, c = st._decomp(ref)
+        if st.alloc_base is None:
+            return False
+        if b.eq(st.alloc_base):
+            return c >= st.alloc_off
+        cur = b.get_id()
+        ep = self.epochs
+        seen = 0
+        while cur in ep and seen < 50:
+            prev, used = ep[cur]
+            if prev == st.alloc_base.get_id():
+                return used >= st.alloc_off and c >= 0
+            cur = prev
+            seen += 1
+        return False
+
     def ghost_stmts(self, lc):
         if "_ghost_ast" not in lc:
             lc["_ghost_ast"] = ast.parse("\n".join(lc["ghost_update"])).body
@@ -344,10 +408,12 @@ class LoopMixin:
     def dry_run(self, node, st, desc, idx, is_for):
         """Execute the body once with obligations off to learn which heap fields it writes."""
         s = st.copy()
-        saved = (self.collect, self.write_log)
+        saved = (self.collect, self.write_log, self.write_refs)
         self.collect = False
         keys = set()
         self.write_log = keys
+        refs = []
+        self.write_refs = refs
         before = dict(s.heap)
         alloc0 = s.alloc
         allocates = False
@@ -377,9 +443,12 @@ class LoopMixin:
                 if o.alloc is not alloc0 and not o.alloc.eq(alloc0):
                     allocates = True
         finally:
-            self.collect, self.write_log = saved
+            self.collect, self.write_log, self.write_refs = saved
         if saved[1] is not None:
             saved[1].update(keys)
+        if saved[2] is not None:
+            saved[2].extend(refs)
+        self.last_dry_refs = refs
         return keys, allocates
 
     # -- generators ----------------------------------------------------------------------------
@@ -391,7 +460,17 @@ class LoopMixin:
         ys2 = self.with_elem(ys, v, st)
         st.env["__yield__"] = ys2
         self.list_append(ys2, v, st)
-        return self.flush(st)
+        outs = self.flush(st)
+        c = getattr(self, "active", {}).get(st.frame.qualname)
+        if c:
+            code = []
+            for k, g in enumerate(c.get("ghost_code", [])):
+                if g.get("at_yield"):
+                    self.ghost_hit.add(k)
+                    code.extend(ast.parse(g["code"]).body)
+            if code:
+                return self.exec_block(code, st) + outs[1:]
+        return outs
 
     def inline_generator(self, fi, env, st):
         """A generator consumed eagerly: its yields are collected into a ghost list (A-GEN)."""
@@ -422,3 +501,173 @@ class LoopMixin:
             return NONE_VAL
         self.merge_into(st, normal, n0)
         return st.ret_tmp
+
+
+class CompMixin:
+    """List comprehensions.
+
+    map   [f(x) for x in xs]            f pure  -> pointwise-defined fresh list
+                                        f under contract (allocating, otherwise pure) -> the callee's
+                                        postcondition holds for every index (quantified contract application)
+    filter [x for x in xs if p(x)]      p pure  -> sub-sequence with a monotone ghost index map
+    """
+
+    def ev_ListComp(self, e, st):
+        if len(e.generators) != 1 or e.generators[0].is_async:
+            raise Unsupported("nested comprehension")
+        g = e.generators[0]
+        desc = self.iter_desc(g.iter, st)
+        n = desc.length(st)
+        ns = z3.simplify(n)
+        if z3.is_int_value(ns) and ns.as_long() <= 6 and (self.bounded is not None or ns.as_long() <= 4):
+            return self.comp_unrolled(e, g, desc, ns.as_long(), st)
+        if g.ifs:
+            return self.comp_filter(e, g, desc, st)
+        return self.comp_map(e, g, desc, st)
+
+    def comp_unrolled(self, e, g, desc, n, st):
+        out = self.new_list(None, st)
+        s_env = st.env
+        st.env = dict(st.env)
+        try:
+            for k in range(n):
+                self.assign(g.target, desc.elem(st, z3.IntVal(k)), st)
+                conds = [self.truth(self.eval(c, st), st) for c in g.ifs]
+                if conds:
+                    c = z3.And(*conds)
+                    st.guards.append(c)
+                    try:
+                        v = self.eval(e.elt, st)
+                        out2 = self.with_elem(out, v, st)
+                        self.list_append(out2, v, st)
+                        out = out2
+                    finally:
+                        st.guards.pop()
+                else:
+                    v = self.eval(e.elt, st)
+                    out = self.with_elem(out, v, st)
+                    self.list_append(out, v, st)
+        finally:
+            st.env = s_env
+        return out
+
+    def _pure_eval(self, node, st):
+        """Evaluate node; returns (value, pure?) where pure = no heap write, no allocation."""
+        h0 = dict(st.heap)
+        a0 = st.alloc
+        v = self.eval(node, st)
+        pure = st.alloc is a0 or st.alloc.eq(a0)
+        if pure:
+            for k, arr in st.heap.items():
+                if k in h0 and h0[k] is not arr and not h0[k].eq(arr):
+                    pure = False
+                    break
+        return v, pure
+
+    def comp_map(self, e, g, desc, st):
+        n = desc.length(st)
+        j = fresh("lc_j", I)
+        # contract-call element?
+        elt = e.elt
+        if isinstance(elt, ast.Call):
+            s2 = st.copy()
+            s2.spec = True
+            try:
+                f = self.eval(elt.func, s2)
+            except Unsupported:
+                f = None
+            if f is not None and f.ty == FN and f.t[0] in ("func", "bound"):
+                fi = f.t[1]
+                c = self.contract_of(fi.qualname)
+                if c is not None and set(c["modifies"]) <= {"alloc"}:
+                    return self.comp_map_contract(e, g, desc, fi, c, f, st)
+        sub = st.copy()
+        sub.env = dict(st.env)
+        sub.guards = list(st.guards) + [z3.And(0 <= j, j < n)]
+        self.assign(g.target, desc.elem(sub, j), sub)
+        v, pure = self._pure_eval(elt, sub)
+        if not pure:
+            raise Unsupported("comprehension element with side effects and no contract")
+        for r in sub.spawned:
+            # an element evaluation that may raise: raise condition exists for some index
+            cond = z3.And(*r.pc[len(st.pc):]) if len(r.pc) > len(st.pc) else z3.BoolVal(True)
+            st.raise_if(z3.Exists([j], cond), r.exc, r.exc_site)
+        # facts assumed while evaluating the element (e.g. ranges) hold for every index
+        extra = sub.pc[len(st.pc):]
+        if extra:
+            st.assume(z3.ForAll([j], z3.And(*extra)))
+        items = self.def_array(st, j, to_sort_term(v, v.ty))
+        return self.new_list(v.ty, st, n, items)
+
+    def comp_map_contract(self, e, g, desc, fi, c, f, st):
+        n = desc.length(st)
+        j = fresh("lc_j", I)
+        rng = z3.And(0 <= j, j < n)
+        pre = st.copy()
+        sub = st.copy()
+        sub.env = dict(st.env)
+        sub.spec = True
+        self.assign(g.target, desc.elem(sub, j), sub)
+        args = [self.eval(a, sub) for a in e.elt.args]
+        kwargs = {k.arg: self.eval(k.value, sub) for k in e.elt.keywords}
+        if f.t[0] == "bound":
+            args = [f.t[2]] + args
+        penv = self.bind(fi, args, kwargs, sub)
+        short = fi.qualname.split(".")[-1]
+        for k, r in enumerate(c["requires"]):
+            goal = self.spec_truth(r, penv, st, old=st)
+            self.oblige(st, f"call:{short}/requires#{k}", z3.ForAll([j], z3.Implies(rng, goal)), clause=r)
+        alloc0 = st.alloc
+        st.new_epoch_at_least(alloc0)
+        na = st.alloc
+        for wf in c.get("writes_fresh", []):
+            self.havoc_fresh_region(wf, alloc0, st)
+        rty = parse_type(c["returns"])
+        R = fresh("lc_items", z3.ArraySort(I, sort_of(rty)))
+        res = from_sort_term(z3.Select(R, j), rty)
+        qenv = dict(penv)
+        qenv["result"] = res
+        facts = [z3.And(z3.Select(R, j) >= alloc0, z3.Select(R, j) < na)] if is_reflike(rty) else []
+        for en in c["ensures"]:
+            facts.append(self.spec_truth(en, qenv, st, old=pre))
+        st.assume(z3.ForAll([j], z3.Implies(rng, z3.And(*facts)), patterns=[z3.Select(R, j)]))
+        if is_reflike(rty):
+            j2 = fresh("lc_k", I)
+            st.assume(z3.ForAll([j, j2], z3.Implies(z3.And(0 <= j, j < j2, j2 < n), z3.Select(R, j) != z3.Select(R, j2))))
+        st.assume(n >= 0)
+        return self.new_list(rty, st, n, R)
+
+    def comp_filter(self, e, g, desc, st):
+        """[elt for x in xs if p]: ghost strictly increasing index map m with
+        (1) every selected index satisfies p, (2) every index satisfying p is selected."""
+        n = desc.length(st)
+        j = fresh("lc_j", I)
+        i = fresh("lc_i", I)
+        m = fresh_fn("lc_sel", I, I)       # position in result -> source index
+        minv = fresh_fn("lc_pos", I, I)    # source index -> position in result
+        cnt = fresh("lc_n", I)
+
+        def at(idx):
+            sub = st.copy()
+            sub.env = dict(st.env)
+            sub.spec = True
+            self.assign(g.target, desc.elem(sub, idx), sub)
+            conds = [self.truth(self.eval(c, sub), sub) for c in g.ifs]
+            v, pure = self._pure_eval(e.elt, sub)
+            if not pure:
+                raise Unsupported("filter comprehension element with side effects")
+            return z3.And(*conds), v
+        p_m, v_m = at(m(j))
+        p_i, _ = at(i)
+        st.assume(z3.And(cnt >= 0, cnt <= n))
+        st.assume(z3.ForAll([j], z3.Implies(z3.And(0 <= j, j < cnt),
+                                            z3.And(0 <= m(j), m(j) < n, p_m, minv(m(j)) == j)), patterns=[m(j)]))
+        j2 = fresh("lc_k", I)
+        st.assume(z3.ForAll([j, j2], z3.Implies(z3.And(0 <= j, j < j2, j2 < cnt), m(j) < m(j2)), patterns=[m(j), m(j2)]))
+        st.assume(z3.ForAll([i], z3.Implies(z3.And(0 <= i, i < n, p_i),
+                                            z3.And(0 <= minv(i), minv(i) < cnt, m(minv(i)) == i)), patterns=[minv(i)]))
+        items = self.def_array(st, j, to_sort_term(v_m, v_m.ty))
+        out = self.new_list(v_m.ty, st, cnt, items)
+        out.x["sel"] = m
+        out.x["pos"] = minv
+        return out
